@@ -22,7 +22,8 @@ type solverSpec struct {
 var solvers = []solverSpec{
 	{"z3-new", func(f string, t int, inc bool) []string {
 		if inc {
-			return []string{"z3-new", f}
+			// deterministic resource limit (t is in milliseconds-equivalents: about 6M units per second)
+			return []string{"z3-new", fmt.Sprintf("rlimit=%d", t*6000), fmt.Sprintf("-t:%d", t*3), f}
 		}
 		return []string{"z3-new", fmt.Sprintf("-t:%d", t), f}
 	}},
@@ -169,6 +170,9 @@ func runSolver(ctx context.Context, s solverSpec, file string, timeoutMs int, in
 	t0 := time.Now()
 	err := cmd.Run()
 	d := time.Since(t0)
+	if os.Getenv("GOCV_TRACE") != "" && d > time.Second {
+		fmt.Fprintf(os.Stderr, "TRACE %.1fs %s %s\n", d.Seconds(), s.name, filepath.Base(file))
+	}
 	raw := out.String()
 	var lines []string
 	for _, l := range strings.Split(raw, "\n") {
@@ -214,58 +218,137 @@ func (vc *VC) Discharge(obls []*Obligation, workDir string, quickMs, slowMs int)
 	var wg sync.WaitGroup
 	var mu sync.Mutex
 	var firstErr error
-	workers := make(chan struct{}, 6)
+	setErr := func(err error) {
+		mu.Lock()
+		if firstErr == nil {
+			firstErr = err
+		}
+		mu.Unlock()
+	}
+	// one obligation, standalone: deterministic first pass, then the raced slow path
+	single := func(i int, o *Obligation) {
+		sf := fmt.Sprintf("%s.obl%d.smt2", base, i)
+		if err := os.WriteFile(sf, []byte(vc.Standalone(o, !o.Cover)), 0o644); err != nil {
+			setErr(err)
+			return
+		}
+		ms := quickMs
+		if o.Cover {
+			ms = 500
+		}
+		var r runResult
+		if o.Cover {
+			// reachability probes are satisfiable queries: wall-clock limit, the answer never turns into an alarm
+			r = runSolver(context.Background(), solvers[0], sf, ms, false, time.Duration(ms+1500)*time.Millisecond)
+		} else {
+			r = runSolver(context.Background(), solvers[0], sf, ms, true, time.Duration(ms*3+3000)*time.Millisecond)
+		}
+		if r.err != nil {
+			setErr(fmt.Errorf("%s obligation %s: %v (script %s)", vc.key, o.Name, r.err, sf))
+			return
+		}
+		res := "unknown"
+		if len(r.lines) > 0 {
+			res = r.lines[0]
+		}
+		o.Result, o.Solver, o.Ms = res, "z3-new", r.dur.Milliseconds()
+		if o.Cover || res == "unsat" {
+			os.Remove(sf)
+			return
+		}
+		if res == "sat" {
+			o.Model = r.raw
+		}
+		if res != "sat" {
+			// a conjunction that is too much at once is often easy piecewise
+			if parts := splitGoal(o.Goal); len(parts) > 1 && len(parts) <= 40 {
+				all := true
+				var tot int64
+				for pi, pg := range parts {
+					po := &Obligation{Func: o.Func, Name: o.Name, Detail: o.Detail, Pos: o.Pos, Guard: o.Guard, Goal: pg}
+					pf := fmt.Sprintf("%s.obl%d.part%d.smt2", base, i, pi)
+					if err := os.WriteFile(pf, []byte(vc.Standalone(po, false)), 0o644); err != nil {
+						all = false
+						break
+					}
+					pr := runSolver(context.Background(), solvers[0], pf, ms*2, true, time.Duration(ms*6+3000)*time.Millisecond)
+					os.Remove(pf)
+					tot += pr.dur.Milliseconds()
+					if pr.err != nil || len(pr.lines) == 0 || pr.lines[0] != "unsat" {
+						all = false
+						break
+					}
+				}
+				if all {
+					o.Result, o.Solver, o.Ms = "unsat", fmt.Sprintf("z3-new (goal split in %d)", len(parts)), o.Ms+tot
+					os.Remove(sf)
+					return
+				}
+			}
+		}
+		rr := raceSolvers(sf, slowMs)
+		if rr.err != nil {
+			setErr(fmt.Errorf("%s obligation %s: %v (script %s)", vc.key, o.Name, rr.err, sf))
+			return
+		}
+		o.Result, o.Solver, o.Ms = rr.result, rr.solver, o.Ms+rr.dur.Milliseconds()
+		if rr.result != "unsat" {
+			o.Model = rr.raw
+		} else {
+			os.Remove(sf)
+		}
+	}
+	// obligations raised at the same program point under the same path condition are first tried together
+	type gkey struct {
+		pos   int
+		guard string
+	}
+	groups := map[gkey][]int{}
+	var order []gkey
 	for i, o := range obls {
-		i, o := i, o
+		k := gkey{o.Pos, o.Guard}
+		if o.Cover {
+			k = gkey{-1 - i, ""}
+		}
+		if _, ok := groups[k]; !ok {
+			order = append(order, k)
+		}
+		groups[k] = append(groups[k], i)
+	}
+	for _, k := range order {
+		idxs := groups[k]
 		wg.Add(1)
-		go func() {
+		go func(idxs []int) {
 			defer wg.Done()
-			workers <- struct{}{}
-			defer func() { <-workers }()
-			sf := fmt.Sprintf("%s.obl%d.smt2", base, i)
-			if err := os.WriteFile(sf, []byte(vc.Standalone(o, !o.Cover)), 0o644); err != nil {
-				mu.Lock()
-				firstErr = err
-				mu.Unlock()
-				return
+			if len(idxs) > 1 {
+				var goals []string
+				for _, i := range idxs {
+					goals = append(goals, obls[i].Goal)
+				}
+				comb := &Obligation{Func: vc.key, Name: "group", Pos: obls[idxs[0]].Pos, Guard: obls[idxs[0]].Guard, Goal: "(and " + strings.Join(goals, " ") + ")"}
+				sf := fmt.Sprintf("%s.grp%d.smt2", base, idxs[0])
+				if err := os.WriteFile(sf, []byte(vc.Standalone(comb, false)), 0o644); err == nil {
+					r := runSolver(context.Background(), solvers[0], sf, quickMs, true, time.Duration(quickMs*3+3000)*time.Millisecond)
+					os.Remove(sf)
+					if r.err == nil && len(r.lines) > 0 && r.lines[0] == "unsat" {
+						per := r.dur.Milliseconds() / int64(len(idxs))
+						for _, i := range idxs {
+							obls[i].Result, obls[i].Solver, obls[i].Ms = "unsat", "z3-new (grouped)", per
+						}
+						return
+					}
+				}
 			}
-			ms := quickMs
-			if o.Cover {
-				ms = 500
+			var wg2 sync.WaitGroup
+			for _, i := range idxs {
+				wg2.Add(1)
+				go func(i int) {
+					defer wg2.Done()
+					single(i, obls[i])
+				}(i)
 			}
-			r := runSolver(context.Background(), solvers[0], sf, ms, false, time.Duration(ms+2000)*time.Millisecond)
-			if r.err != nil {
-				mu.Lock()
-				firstErr = fmt.Errorf("%s obligation %s: %v (script %s)", vc.key, o.Name, r.err, sf)
-				mu.Unlock()
-				return
-			}
-			res := "unknown"
-			if len(r.lines) > 0 {
-				res = r.lines[0]
-			}
-			o.Result, o.Solver, o.Ms = res, "z3-new", r.dur.Milliseconds()
-			if o.Cover || res == "unsat" {
-				os.Remove(sf)
-				return
-			}
-			if res == "sat" {
-				o.Model = r.raw
-			}
-			rr := raceSolvers(sf, slowMs)
-			if rr.err != nil {
-				mu.Lock()
-				firstErr = fmt.Errorf("%s obligation %s: %v (script %s)", vc.key, o.Name, rr.err, sf)
-				mu.Unlock()
-				return
-			}
-			o.Result, o.Solver, o.Ms = rr.result, rr.solver, o.Ms+rr.dur.Milliseconds()
-			if rr.result != "unsat" {
-				o.Model = rr.raw
-			} else {
-				os.Remove(sf)
-			}
-		}()
+			wg2.Wait()
+		}(idxs)
 	}
 	wg.Wait()
 	return firstErr
@@ -375,6 +458,6 @@ func (vc *VC) feasible() bool {
 		return true
 	}
 	defer os.Remove(file)
-	res := runSolver(context.Background(), solvers[0], file, 1200, false, 2500*time.Millisecond)
+	res := runSolver(context.Background(), solvers[0], file, 2000, true, 9*time.Second)
 	return !(res.err == nil && len(res.lines) > 0 && res.lines[0] == "unsat")
 }
